@@ -1245,3 +1245,75 @@ def op_toksrc(case):
             obs.append(o)
         out.append(obs)
     return {"observations": out}
+
+
+_EV = [
+    (r"^\s*(r\d+) \.\.\. \(looking at (\d+)\.(\d+):", "lrenter"),
+    (r"^\s*(r\d+)\(\) \.\.\.\. \(looking at (\d+)\.(\d+):", "lenter"),
+    (r"^\s*(r\d+)\(\) \.\.\. \(looking at (\d+)\.(\d+):", "enter"),
+    (r"^\s*\.\.\. (r\d+)\(\) --> (.*)$", "lexit"),
+    (r"^\s*\.\.\. (r\d+)\(\) -> (.*)$", "exit"),
+    (r"^\s*Recursive (r\d+) at (\d+) depth (\d+): (.*) to (\d+)$", "iter"),
+    (r"^\s*(r\d+)\(\) -> (.*) \[cached\]$", "lrexit"),
+    (r"^\s*(r\d+)\(\) -> (.*) \[fresh\]$", "fresh"),
+    (r"^\s*(r\d+)\(\) -> (.*)$", "hit"),
+]
+
+
+def parse_verbose_log(text: str, ntok: int = 0) -> list:
+    import re
+
+    def pos(m):
+        # tokens are one character wide and separated by one space: column 2k = token k; the NEWLINE sits right after the
+        # last token (column 2n-1), the ENDMARKER on the next line
+        if ntok == 0:
+            return 0  # empty input: only the ENDMARKER is left
+        return ntok + 1 if int(m.group(2)) > 1 else (int(m.group(3)) + 1) // 2
+
+    out = []
+    for ln in text.splitlines():
+        for pat, kind in _EV:
+            m = re.match(pat, ln)
+            if not m:
+                continue
+            r = int(m.group(1)[1:])
+            if kind in ("enter", "lenter", "lrenter"):
+                out.append([kind, r, pos(m)])
+            elif kind == "iter":
+                out.append([kind, r, int(m.group(2)), int(m.group(3)), m.group(4).strip() != "None", int(m.group(5))])
+            else:
+                out.append([kind, r, m.group(2).strip() != "None"])
+            break
+    return out
+
+
+def op_c17_verbose(case):
+    """verbose trace of the generated parser (peg_parser runtime): the printed lines, parsed into machine events"""
+    import contextlib
+
+    try:
+        arm()
+        cls, _code = _build_parser(case["gram"], "xonsh")
+    except BaseException as e:  # noqa: BLE001
+        return {"build": "error", "exc": exc_record(e)}
+    from peg_parser.tokenizer import Tokenizer
+
+    res = []
+    for w in case["strings"]:
+        text = " ".join(w) + "\n"
+        buf = io.StringIO()
+        st = "ok"
+        arm()
+        try:
+            with contextlib.redirect_stdout(buf):
+                tk = Tokenizer(T().generate_tokens(io.StringIO(text).readline))
+                v = cls(tk, verbose=True).r1()
+            st = "fail" if v is None else "ok"
+        except HangTimeout:
+            st = "hang"
+        except SyntaxError:
+            st = "raise"
+        except BaseException as e:  # noqa: BLE001
+            st = "error:" + type(e).__name__
+        res.append({"st": st, "log": parse_verbose_log(buf.getvalue(), len(w))})
+    return {"build": "ok", "results": res}
